@@ -32,6 +32,12 @@ def run_c04(tier):
     findings, summaries = [], []
     for name, uni, tpath, st, states in tabs:
         recs = jsonl(run_bin("default", "fire_replay", [os.path.join(UNIV, name + ".json"), tpath, ncpu()]))
+        for r in recs:
+            if r["kind"] == "summary" and r.get("hang"):
+                r.update({"universe": name, "states": 0, "runs": 0, "states_skipped_redundant": 0, "instances_checked": 0,
+                          "instances_present_only_up_to_equality": 0, "panics": 0, "findings": 1})
+            if r["kind"] == "finding" and r["prop"] == "*":
+                r["prop"] = prop
         summaries += [r for r in recs if r["kind"] == "summary"]
         findings += [r for r in recs if r["kind"] == "finding"]
     u0 = [t for t in tabs if t[0] == 'F_hf'][0][1]
@@ -99,7 +105,13 @@ def rw_trace(tier, tag, p=3, runs=None, variant="default"):
     trace = os.path.join(OUT, "tlc", "%s_rw_p%d%s.ndjson" % (tag, p, vtag))
     recs = jsonl(run_bin(variant, "rw_record", [path, trace, runs]))
     summ = [r for r in recs if r["kind"] == "summary"][0]
+    if summ.get("hang"):
+        summ.update({"runs": 0, "events": 0, "panics": 0, "p": p})
+        open(trace, "a").close()
     panics = [r for r in recs if r["kind"] == "finding"]
+    for r in panics:
+        if r["prop"] == "*":
+            r["prop"] = tag        # the tag is the property being checked
     cfg = open(os.path.join(SPEC, "TraceRewrite.cfg")).read()
     logp, st = run_tlc_root("%s_rwtrace_p%d%s" % (tag, p, vtag), "TraceRewrite", {"TraceP": p, "TraceNumTable": numtable(trace)}, cfg,
                             workers=1, env={"VERIF_TRACE": trace}, xss=True, deque=True, timeout=3000)
@@ -141,6 +153,7 @@ def run_c03(tier):
     # SynExprSubst reads them back, so rewriting is validated in that build as well
     for p, variant in [(p, "default") for p in ps] + [(3, "expl")]:
         bad, panics, st, summ, lines = rw_trace(tier, prop, p, variant=variant)
+        findings += [f for f in panics if f["prop"] == prop]
         for f in bad_to_findings(bad, lines, prop):
             f["variant"] = variant
             findings.append(f)
@@ -184,7 +197,7 @@ def run_c15(tier):
         require_tlc_ok(st, logp, cfgname)
         mst[cfgname] = st
     bad, panics, st, summ, lines = rw_trace(tier, prop, 3, runs=(900 if tier == "quick" else 9000))
-    findings = bad_to_findings(bad, lines, prop)
+    findings = bad_to_findings(bad, lines, prop) + [f for f in panics if f["prop"] == prop]
     evs = [json.loads(l) for l in lines]
     stops = [e for e in evs if e["ev"] == "stop"]
     reasons = {}
@@ -209,4 +222,4 @@ def run_c15(tier):
 def c14_constfold(tier):
     """C14 part 2: constant folding with its modify hook on recorded rewriting runs"""
     bad, panics, st, summ, lines = rw_trace(tier, "C14", 3)
-    return bad_to_findings(bad, lines, "C14"), st, summ, sum(1 for l in lines if '"ev":"dump"' in l)
+    return bad_to_findings(bad, lines, "C14") + [f for f in panics if f["prop"] == "C14"], st, summ, sum(1 for l in lines if '"ev":"dump"' in l)
